@@ -11,7 +11,7 @@ import (
 
 func (f *Frame) panicEdge(cond, kind, anchor string) {
 	// cond is the condition (under pc) in which the implicit panic happens
-	f.onPanic(and(f.pc, cond), kind, anchor)
+	f.raise(and(f.pc, cond), kind, anchor)
 	f.pc = f.ex.def(f.pfx+"pc", "Bool", and(f.pc, not(cond)))
 }
 
@@ -145,7 +145,13 @@ func (f *Frame) execInstr(in ssa.Instruction) {
 			ex.fail("%s: defer of interface method", f.key)
 			return
 		}
-		f.defers = append(f.defers, deferRec{call: x, fn: f.val(x.Call.Value), args: args, cond: f.pc})
+		dr := deferRec{call: x, fn: f.val(x.Call.Value), args: args, cond: f.pc}
+		if dfn := dr.fn.Fn; dfn != nil {
+			dr.recovers = callsRecover(dfn)
+		} else if dr.fn.Clo != nil {
+			dr.recovers = callsRecover(dr.fn.Clo.fn)
+		}
+		f.defers = append(f.defers, dr)
 	case *ssa.RunDefers:
 		f.runDefers()
 	case *ssa.Range:
@@ -162,6 +168,19 @@ func (f *Frame) execInstr(in ssa.Instruction) {
 		ex.fail("%s: unhandled instruction %T", f.key, in)
 		f.dead = true
 	}
+}
+
+func callsRecover(fn *ssa.Function) bool {
+	for _, b := range fn.Blocks {
+		for _, in := range b.Instrs {
+			if c, ok := in.(*ssa.Call); ok {
+				if bi, ok := c.Call.Value.(*ssa.Builtin); ok && bi.Name() == "recover" {
+					return true
+				}
+			}
+		}
+	}
+	return false
 }
 
 func (f *Frame) heapOfPointee(elem types.Type) string {
@@ -186,6 +205,7 @@ func (f *Frame) execIndexAddr(x *ssa.IndexAddr) {
 	i := f.val(x.Index)
 	switch ut := x.X.Type().Underlying().(type) {
 	case *types.Slice:
+		f.ex.assume("(trig " + i.T + ")") // trigger term for index-quantified specifications
 		f.panicEdge(not(and("(<= 0 "+i.T+")", "(< "+i.T+" (Slice.len "+v.T+"))")), "index_in_range", x.X.Name())
 		heap := f.ex.S.heapForSliceElem(ut.Elem())
 		arrT := types.NewArray(ut.Elem(), -1)
